@@ -879,12 +879,16 @@ func (e *specEnv) call(x *ast.CallExpr, sg *SGo) Val {
 	if u := tr.G.lookupUFunc(e.pkg, name); u != nil {
 		var args []string
 		var sorts []string
+		ue := &specEnv{tr: tr, pkg: tr.G.typesPkg[u.PkgPath], names: map[string]Val{}} // types resolve in the declaring package
+		if ue.pkg == nil {
+			ue.pkg = e.pkg
+		}
 		for i, a := range u.Args {
-			at := e.resolveType(a)
+			at := ue.resolveType(a)
 			args = append(args, e.coerce(arg(i), at).T)
 			sorts = append(sorts, tr.C.sortOf(at))
 		}
-		rt := e.resolveType(u.Ret)
+		rt := ue.resolveType(u.Ret)
 		fn := "uf_" + mangle(u.PkgPath) + "_" + u.Name
 		tr.C.declare(fn, fmt.Sprintf("(declare-fun %s (%s) %s)", fn, strings.Join(sorts, " "), tr.C.sortOf(rt)))
 		if len(args) == 0 {
